@@ -2,6 +2,7 @@ package core
 
 import (
 	"go/ast"
+	"go/constant"
 	"go/token"
 	"go/types"
 )
@@ -63,4 +64,44 @@ func TypeShort(t types.Type) string {
 		return shortenPath(n.Obj().Pkg().Path()) + "." + n.Obj().Name()
 	}
 	return t.String()
+}
+
+// AssumeValue assumes that every expression recognised by L has the integer
+// value v: a comparison of such an expression with an integer constant (any
+// orientation) is decided by evaluating it.
+func AssumeValue(L ExprPred, v int64) AssumeFn {
+	isConst := func(c *Ctx, e ast.Expr) bool {
+		tv, ok := c.Info.Types[e]
+		return ok && tv.Value != nil && tv.Value.Kind() == constant.Int
+	}
+	return func(c *Ctx, e ast.Expr) Tri {
+		op, ok := CmpAtom(c, e, L, isConst)
+		if !ok {
+			return Unknown
+		}
+		b := ast.Unparen(e).(*ast.BinaryExpr)
+		ce := b.Y
+		if !isConst(c, ce) || L(c, b.Y) && isConst(c, b.X) && !L(c, b.X) {
+			ce = b.X
+		}
+		k, exact := constant.Int64Val(c.Info.Types[ce].Value)
+		if !exact {
+			return Unknown
+		}
+		switch op {
+		case token.EQL:
+			return triOf(v == k)
+		case token.NEQ:
+			return triOf(v != k)
+		case token.LSS:
+			return triOf(v < k)
+		case token.LEQ:
+			return triOf(v <= k)
+		case token.GTR:
+			return triOf(v > k)
+		case token.GEQ:
+			return triOf(v >= k)
+		}
+		return Unknown
+	}
 }
